@@ -41,6 +41,24 @@ CLAIMED = {
  "C11": dict(design="6 (C11)", technique="Lean 4 theorem by induction over arbitrary histories (four history functions = four state fields) + product exploration to a fixpoint",
    text="Theorem C11.exact: for ALL finite histories the scanner reports exactly justifiedPN(history, input): CC 6/96/97 with both number halves received since reset; number = 128*latest MSB + latest LSB; registered iff the latest number byte was 100/101; 14-bit iff a CC 38 arrived after the latest number byte. Corollaries nothing_else, needs_complete_number, reported_fields. Tie: exhaustive exploration of real scanner states (1 channel quick; 2-channel products thorough) + seeded random histories, each compared with the model and with justifiedPN on the implementation's own history.",
    note=TB),
+ "C12": dict(design="7 (C12)", technique="Lean 4 theorem by induction over sentences of the documented grammar and their schedules + bounded-exhaustive sentence runs on the real scanner",
+   text="Theorem C12.sentences (Midi/Props/C12.lean, helper lemmas Midi/Proofs/Sentences.lean): from ANY prior channel state, for every non-empty sentence of the documented grammar (number selection x,y in either order; MSB alone, MSB LSB, further LSB, LSB MSB directly after x,y, inc/dec with the documented side conditions; any number of blocks, all values) and every good schedule (arbitrary polls/time/non-contributing traffic in the gaps, polls inside a two-message unit early), followed by a poll at least `timeout` after the last message, feed and poll together report exactly flush(prior state) ++ intended(sentence), each once and in order; any timeout. Corollary encode_roundtrip for both byte orders. Multi-channel interleavings reduce to this by C15.isolation_polling. Tie: product exploration with probes, all unit-kind sequences up to 3 (5 thorough) units run on the real scanner with three gap styles and compared with the Lean spec's `intended`, long random sentences, encode->feed->poll oracle.",
+   note=TB + "Time is the mock clock of the hook (monotone by construction); std::time::Instant's monotonicity is assumed. The grammar and `intended` (Midi/Spec/Grammar.lean) are my reading of the scanner's documentation."),
+ "C13": dict(design="7 (C13)", technique="Lean 4 theorems by case analysis over the four-phase state machine with an explicit clock + history-level origin theorem + exploration with time steps + directed oracles",
+   text="Theorems (Midi/Props/C13.lean), for any timeout and any times: poll_some (a poll reports only a pending MSB whose stamp is at least timeout old, reports the 7-bit message, leaves pending), poll_early (no result, no effect), poll_idle, poll_once, lsb_dropped, feed_time_indep (feed results and state modulo stamp do not depend on time), arrival_stamped, pending_origin and poll_report_justified (history level: a poll's report is justified by a controller-6 message fed at least timeout before). Tie: mock-clock hook; product exploration with time steps 1/timeout-1/timeout for timeouts 0 and 3 with probes; random histories with timeouts up to u64::MAX; directed scenarios with verdicts on the real code; executable form of poll_report_justified monitors every poll of the implementation.",
+   note=TB + "Partial by nature: proved over the mock clock; the real clock is assumed monotone with saturating elapsed()."),
+ "C14": dict(design="7 (C14)", technique="Lean 4 theorem: an executable trace monitor (the property as a history observer) accepts every model trace, by a simulation invariant + the same monitor run on implementation traces",
+   text="Theorem C14.monitor_accepts: the monitor of Midi/Spec/Monitor.lean (attribution of every report to the channel, the latest number bytes and registered flag before the call, values from actually received bytes; nothing before a complete number; no controller-6 byte reported twice or as 7-bit after being part of a 14-bit value; every controller-6 byte received with a complete number reported by the next contributing message or the first late poll; two results only for inc/dec after a pending MSB, never a second without a first) accepts the trace of EVERY finite event sequence (feeds incl. malformed/mixed traffic, polls at any times, resets) from a new scanner with any timeout. Proof: simulation relation between monitor memory and the four phases. Tie: the same monitor runs in the driver on the real scanner's results for every explored transition (implementation x observer product to a fixpoint) and all random histories on 16 channels.",
+   note=TB + "The monitor is per channel; C15 lifts it to the 16-channel scanner. Mock clock as in C13."),
+ "C15": dict(design="7 (C15)", technique="Lean 4 theorems for all interleavings (induction over histories; per-channel frame lemmas) + side-by-side real scanners for every ordered channel pair",
+   text="Theorems (Midi/Props/C15.lean): isolation_cc / isolation_pn (the reports for channel c under ANY interleaved history equal those of a fresh scanner fed only c's inputs and the resets; via the exact history characterisations), isolation_polling (final sub-scanner state and results of c's operations equal those of c's sub-scanner alone, for any interleaving of feeds, polls, resets and time), report_channel_* (every report carries the channel of the triggering input/poll), system_inert_* (system messages report nothing and affect no channel). General in the channel pair. Tie: one 16-channel and 16 own real scanners side by side on random two-channel interleavings for every ordered pair and on 16-channel interleavings, compared with each other (oracle) and with the model.",
+   note=TB),
+ "C16": dict(design="7 (C16)", technique="Lean 4 theorems for all states (not only reachable) + every reachable state x every non-contributing message on the real scanners",
+   text="Theorems (Midi/Props/C16.lean): transparent_cc / transparent_pn / transparent_polling: from EVERY state a valid non-contributing message returns nothing and the identical state; insert_anywhere_*; predicates (decided by the kernel over all 128 controller numbers: 14-bit part iff < 64, LSB = n+32 iff < 32 without overflow, (N)RPN controllers exactly {6,38,96..101}); lsb_constants over the regenerated constant table; contributes_matches_predicates. Tie: every explored state of the pure scanners x all non-contributing controllers x values and all non-CC status bytes with real PartialEq before/after; the same probes after every transition of the polling exploration; predicates and constants through the public API.",
+   note=TB + "derive(PartialEq) modelled as structural equality."),
+ "C17": dict(design="7 (C17)", technique="Lean 4 theorems for every state + reset in every explored state with real equality",
+   text="Theorems (Midi/Props/C17.lean): reset_eq_new_cc / _pn for EVERY state; reset_eq_new_polling under UniformTimeout, which uniform_reachable proves for every history from new(t); new_eq_default; reset_continuation_* (same reports as a new scanner for every continuation). Copy independence is true of the model by construction and is checked on the real code. Tie: reset + real `== new(timeout)`/`== default()` in every explored state of all three scanners, continued exploration from the reset state, random histories with resets and mid-history copies driven independently.",
+   note=TB + "derive(Copy, PartialEq, Default) modelled."),
 }
 
 NOT_YET = "check not built yet in this session (planned, see DESIGN.md); not claimed until its theorems and tie exist"
